@@ -48,19 +48,22 @@ Theorem C37_threads_running_eq :
 Proof. exact threads_running_eq. Qed.
 Print Assumptions C37_threads_running_eq.
 
-(* without the discipline the counter law fails: a BeginQuery that returns an error has already
-   incremented Threads_running (processlist.go BeginQuery) and nothing decrements it again *)
-Theorem C37_threads_running_eq_refuted_failed_begin_unregistered :
+(* facts about ILL-FORMED API histories (not refutations of the property: the server registers a connection
+   before it runs queries and draws pids from a counter, so these calls are outside the discipline and outside the
+   property's quantifier): a BeginQuery that returns an error has already incremented Threads_running
+   (processlist.go BeginQuery) and nothing decrements it again, so the well-formedness premise of
+   C37_threads_running_eq cannot be dropped *)
+Theorem C37_failed_begin_unregistered_outside_discipline :
   exists es, snd (step (run init es) (EBeginQ 2 7 1)) = OErrNotRegistered /\
              tr (run init (es ++ [EBeginQ 2 7 1])) <> running_shown (run init (es ++ [EBeginQ 2 7 1])).
-Proof. exact threads_running_refuted_unregistered. Qed.
-Print Assumptions C37_threads_running_eq_refuted_failed_begin_unregistered.
+Proof. exact failed_begin_unregistered_outside_discipline. Qed.
+Print Assumptions C37_failed_begin_unregistered_outside_discipline.
 
-Theorem C37_threads_running_eq_refuted_failed_begin_pid_in_use :
+Theorem C37_failed_begin_pid_in_use_outside_discipline :
   exists es, well_formed es /\ snd (step (run init es) (EBeginQ 2 7 1)) = OErrPidUsed /\
              tr (run init (es ++ [EBeginQ 2 7 1])) <> running_shown (run init (es ++ [EBeginQ 2 7 1])).
-Proof. exact threads_running_refuted_pid_in_use. Qed.
-Print Assumptions C37_threads_running_eq_refuted_failed_begin_pid_in_use.
+Proof. exact failed_begin_pid_in_use_outside_discipline. Qed.
+Print Assumptions C37_failed_begin_pid_in_use_outside_discipline.
 
 (* under the discipline no call fails or panics: Begin* return the next new context, the rest return *)
 Theorem C37_wellformed_calls_succeed :
